@@ -424,7 +424,9 @@ def canonicalise_containers(text, j):
                 m += 1
             args = _split_top(text[k + len(key):m])
             first = args[0] if args else ""
-            if any(first == p_ or first.startswith(p_ + "<") for p_ in local):
+            sized_value = first and not first.startswith(("dyn ", "(dyn", "[", "str")) and "dyn " not in first.split("<", 1)[0]
+            if any(first == p_ or first.startswith(p_ + "<") for p_ in local) or (sized_value and re.fullmatch(r"[A-Z][A-Za-z0-9_]*", first)):
+                # a local struct / enum, or a type parameter (`enum Cache<T> { Empty, Valid(Box<T>) }`)
                 out.append(first)
             else:
                 out.append(text[k:m + 1])
